@@ -390,7 +390,7 @@ impl Prop for C12 {
          data), unreal2 (trailing receives), quake3, bedrock, java (TCP), legacy 1.6 (TCP)} x silence point {before the first \
          reply, after each reply, never} + {TCP connection refused / UDP port closed} x {127.0.0.1, ::1} x read/write/connect \
          timeout {150 ms (quick); 150, 400 ms (thorough)} x retries {0, 1 (quick); 0, 1, 2}; plus the same settings deserialised from their JSON form; plus, for TCP, half a reply followed by silence on an open connection; eco over HTTP (accept-then-hold, \
-         refused) and the master server (silent). The loopback servers are driven by the same reference models. Oracle: the \
+         refused) and the master server (silent). The loopback servers are driven by the same reference models. Oracle: the number of receive timeouts of the deterministic twin run is at most the reference count N; the \
          outcome class equals the outcome of the deterministic twin run under the virtual network with the same silence point \
          ; the call returns within N x timeout + 1.5 s, where N is read off the FAULT-FREE exchange (its natural timeouts + one that may end a greedy list + retries + 1 for the unit that meets the silence), not off the implementation's behaviour under the fault; over UDP the server must receive no more than (requests before the silence + retries x requests an attempt sends before its first receive) datagrams (hard watchdog at \
          4x: 'never times out'); every datagram the server received equals a request the twin run sent. Data path: UdpSocket / \
@@ -462,9 +462,23 @@ impl Prop for C12 {
                 }
                 let silent_before_end = k < total_replies;
                 // at most: the natural timeouts, one that ends a greedy list early, and r+1 for the unit that meets silence
-                let n_timeouts = if silent_before_end { nat_total + 1 + retries + 1 } else { nat_total };
+                // (only Unreal 2 reads greedily until a timeout)
+                let greedy = usize::from(e.family == Family::Unreal2);
+                let n_timeouts = if silent_before_end { nat_total + greedy + retries + 1 } else { nat_total };
                 let expected_requests = if silent_before_end { sends_before + retries * a_u } else { twin_sends.len() };
-                let _ = twin_timeouts;
+                // deterministic part of the bound: under the virtual network, with the same silence point, the query may not sit
+                // through more receive timeouts than that (each one is a full read timeout on a real socket)
+                if twin_timeouts > n_timeouts {
+                    ctx.violation(
+                        format!("blocking-receives-beyond-the-bound:{}", if e.tcp { "tcp" } else { "udp" }),
+                        &[],
+                        format!("{}: under the virtual network the query waits through {twin_timeouts} receive timeouts; the fault-free exchange, the silence point and {retries} retries account for {n_timeouts}", case.label),
+                        format!("{twin_timeouts} receive timeouts"),
+                        format!("at most {n_timeouts}"),
+                        crate::vnet::render_log(&twin.log),
+                    );
+                    return;
+                }
                 let bound = Duration::from_millis(ms) * n_timeouts as u32 + SLACK;
                 let mut last: Option<(String, String)> = None;
                 for attempt in 0 .. 3 {
